@@ -566,3 +566,78 @@ async fn second_router_is_taken_from_the_grandparent() {
     }
     if router_slips[1].amount > fees[0] { witness(format!("the grandparent's routing share {} exceeds the fees it collected {}", router_slips[1].amount, fees[0])); }
 }
+
+/// C13 with a funded treasury (payout multiplier above 1): every still-unspent output of the block leaving the window
+/// comes back once, to its owner, with value × multiplier − fee — or not at all when even that does not cover the fee.
+/// The candidate block is built by Block::create (fees on every block feed the treasury) and its consensus values are
+/// inspected; it is not added to the chain.
+#[tokio::test]
+#[serial_test::serial]
+async fn rebroadcast_with_treasury_payout() {
+    use crate::core::consensus::wallet::Wallet;
+    use crate::core::util::crypto::generate_keys;
+    const FEE: Currency = 100_000;
+    async fn make_block(t: &mut TestManager, recipient: SaitoPublicKey, amount: Currency, with_gt: bool) -> Block {
+        let parent_hash = t.latest_block_hash;
+        let (parent_id, parent_ts, parent_difficulty) = { let bc = t.blockchain_lock.read().await; let p = bc.get_block(&parent_hash).unwrap(); (p.id, p.timestamp, p.difficulty) };
+        let configs = t.config_lock.read().await;
+        let gp = configs.get_consensus_config().unwrap().genesis_period;
+        let (public_key, private_key) = { let w = t.wallet_lock.read().await; (w.public_key, w.private_key) };
+        let mut txs: AHashMap<SaitoSignature, Transaction> = Default::default();
+        { let mut w = t.wallet_lock.write().await; let mut tx = Transaction::create(&mut w, recipient, amount, FEE, false, None, parent_id, gp).unwrap(); tx.sign(&private_key); tx.generate(&public_key, 0, 0); txs.insert(tx.signature, tx); }
+        let mut gttx = None;
+        if with_gt { let gt = TestManager::create_golden_ticket(t.wallet_lock.clone(), parent_hash, parent_difficulty).await; let mut g = Wallet::create_golden_ticket_transaction(gt, &public_key, &private_key).await; g.generate(&public_key, 0, 0); gttx = Some(g); }
+        let bc = t.blockchain_lock.read().await;
+        let mut b = Block::create(&mut txs, parent_hash, std::ops::Deref::deref(&bc), parent_ts + 120_000, &public_key, &private_key, gttx, std::ops::Deref::deref(&configs), &t.storage).await.unwrap();
+        b.generate().unwrap(); b.sign(&private_key);
+        b
+    }
+    let mut rng = Rng::from_env();
+    let mut t = TestManager::default();
+    t.initialize_with_timestamp(1, 100_000_000_000, 0).await;
+    let gp = { t.config_lock.read().await.get_consensus_config().unwrap().genesis_period };
+    let my_key = { t.wallet_lock.read().await.public_key };
+    let stranger = generate_keys().0;
+    let parked_small = 2_000 + rng.below(2_800);          // below the rebroadcast fee: comes back only thanks to the payout (and the payout stays under the 5 % cap)
+    for id in 2..=(gp + 3) {
+        let b = match id { 2 => make_block(&mut t, stranger, 100_000, true).await, 3 => make_block(&mut t, stranger, parked_small, false).await, _ => make_block(&mut t, my_key, 1_000, id % 2 == 0).await };
+        let r = t.add_block(b).await;
+        assert!(matches!(r, AddBlockResult::BlockAddedSuccessfully(..)), "set-up block {} not added: {:?}", id, r);
+    }
+    let candidate = make_block(&mut t, my_key, 1_000, true).await;
+    let bc = t.blockchain_lock.read().await;
+    let parent = bc.get_block(&candidate.previous_block_hash).unwrap();
+    let staked = gp * parent.avg_nolan_rebroadcast_per_block;
+    let mult = 1 + if staked > 0 { parent.treasury / staked } else { 0 };
+    assert!(mult > 1 && parent.avg_fee_per_byte > 0, "scenario must reach a payout multiplier above 1 (got {}) and a non-zero fee rate", mult);
+    let pruned_hash = bc.blockring.get_longest_chain_block_hash_at_block_id(candidate.id - (gp + 1)).unwrap();
+    let mut pruned = t.storage.load_block_from_disk(t.storage.generate_block_filepath(bc.blocks.get(&pruned_hash).unwrap()).as_str()).await.unwrap();
+    pruned.generate().unwrap();
+    // the consensus values as a validating node computes them for the finished block (Block::validate calls the same function)
+    let cv = { let configs = t.config_lock.read().await; candidate.generate_consensus_values(std::ops::Deref::deref(&bc), &t.storage, std::ops::Deref::deref(&configs)).await };
+    // the 5 %-of-treasury cap rewrites the outputs afterwards (and zeroes total_fees_atr): outside the decided clause
+    let capped = cv.total_fees_atr == 0 && !cv.rebroadcasts.is_empty();
+    if std::env::var("VERIF_TRACE").is_ok() { eprintln!("multiplier {}, treasury {} (parent {}), fee rate {}, cap fired: {}, rebroadcasts {}", mult, candidate.treasury, parent.treasury, parent.avg_fee_per_byte, capped, cv.rebroadcasts.len()); }
+    assert!(!capped, "scenario must stay below the 5 % cap");
+    let mut expected = 0usize;
+    for tx in pruned.transactions.iter() {
+        let fee = tx.get_serialized_size() as u64 * parent.avg_fee_per_byte;
+        for (idx, out) in tx.to.iter().enumerate() {
+            if !out.validate(&bc.utxoset) { continue; }
+            let grown = out.amount * mult;
+            let matching: Vec<&Transaction> = cv.rebroadcasts.iter().filter(|a| a.from.len() == 1 && a.from[0].public_key == out.public_key && a.from[0].block_id == out.block_id
+                && a.from[0].tx_ordinal == out.tx_ordinal && a.from[0].slip_index == out.slip_index && a.signature == tx.signature).collect();
+            let desc = format!("output #{} of a {:?} transaction of block {}, amount {}, multiplier {}, rebroadcast fee {}", idx, tx.transaction_type, pruned.id, out.amount, mult, fee);
+            if grown > fee {
+                expected += 1;
+                if matching.len() != 1 { witness(format!("an unspent output whose value × multiplier ({}) covers the fee comes back {} times (must be exactly once): {}", grown, matching.len(), desc)); }
+                let a = matching[0];
+                if a.to.len() != 1 || a.to[0].public_key != out.public_key || a.to[0].slip_type != SlipType::ATR || a.to[0].amount != grown - fee {
+                    witness(format!("rebroadcast output is not (same owner, value × multiplier − fee = {}): got amount {} for key {:?}… : {}", grown - fee, a.to[0].amount, &a.to[0].public_key[..4], desc));
+                }
+            } else if !matching.is_empty() { witness(format!("an output too small to pay the rebroadcast fee even with the payout was rebroadcast: {}", desc)); }
+        }
+    }
+    assert!(expected > 0, "scenario must exercise the rebroadcast path");
+    if cv.rebroadcasts.len() != expected { witness(format!("the candidate block rebroadcasts {} outputs, the block leaving the window has {} unspent outputs worth rebroadcasting", cv.rebroadcasts.len(), expected)); }
+}
